@@ -18,6 +18,8 @@ import CpModel.Gen.C07Tables
     dinit <field=text> ...       -> `ok` | `err:<Class>`              (`HttpDigestAuthorization.__init__` checks)
     dflow <s><d><h> <E:Class|P> <n><u><m><st> <field=text> ... -> status  (`digest_auth`)
     respenc <0|1> <text>         -> `ok <hex>` | `err:ValueError`     (`HeaderMap.encode_header_item`)
+    bflow <p><s><b><a><c><w> <-|Class> -> status                     (`basic_auth`)
+    unq <hex>                    -> hex                               (`_cpreqbody.unquote_plus`)
     respcls <text>               -> class of a response header value
     trailers <hex,hex,..|_>      -> `ok` | `http:400` | `err:<Class>`  (`SizedReader.finish` over the trailer lines)
     bind <bound> <args> <ndefaults> <va><vk> <npos> <kwargs> -> `<0|1> <http:code|reraise> <status>`
@@ -171,6 +173,18 @@ def step (line : String) : String :=
     let ls : Option (List (List UInt8)) := if t == "_" then some [] else (t.splitOn ",").mapM Proto.unhex?
     match ls with
     | some lines => showRaw (trailerFinish CpModel.Gen.C07.trailerErrorsAre400 lines)
+    | none => "bad-op"
+  | ["bflow", bits, e] =>
+    match bits.toList.mapM bit? with
+    | some [p, sp, sb, a, c, w] =>
+      let b64 : Option (Option Exc) := if e == "-" then some none else (parseExc e).map some
+      match b64 with
+      | some b => toString (basicAuth ⟨p, sp, sb, a, b, c, w⟩)
+      | none => "bad-op"
+    | _ => "bad-op"
+  | ["unq", h] =>
+    match Proto.unhex? h with
+    | some b => Proto.hex (unquotePlusBytes b)
     | none => "bad-op"
   | ["respcls", t] =>
     match Proto.untext? t with
